@@ -1,6 +1,6 @@
 From Coq Require Import extraction.Extraction extraction.ExtrOcamlBasic.
-From TU Require Import Base C07_Model.
-Definition run := run_C07s.
-Definition check := check_C07s.
-Definition agree (inp m i : val) : bool := agree_C07s inp m i.
+From TU Require Import Base C07_Model C07_Files.
+Definition run := run_C07f.
+Definition check := check_C07f.
+Definition agree (inp m i : val) : bool := agree_C07f inp m i.
 Extraction "model.ml" run check agree.
